@@ -78,6 +78,15 @@ def gen_request(rng: Rng, name: str, claims: dict) -> dict:
         if present and rng.chance(0.6) and claims[name] is not None:
             vals.insert(rng.randrange(len(vals) + 1), copy.deepcopy(claims[name]))
         opt["values"] = vals
+    if name != "aud" and ("value" in opt or "values" in opt) and rng.chance(0.25):
+        # both kinds of request at once: each of them has to be met
+        if "value" in opt:
+            vals = [rng.pick(["a", "b", "alice", 2, 42]) for _ in range(rng.randrange(1, 3))]
+            if rng.chance(0.6):
+                vals.insert(rng.randrange(len(vals) + 1), copy.deepcopy(opt["value"]))
+            opt["values"] = vals
+        else:
+            opt["value"] = copy.deepcopy(rng.pick(opt["values"])) if rng.chance(0.7) else rng.pick(["a", "alice", 2])
     if not opt:
         opt["essential"] = rng.pick([True, False])
     return opt
